@@ -19,6 +19,7 @@ use std::str::FromStr;
 pub const POOL: &str = "staking_module";
 pub const DENOM: &str = "TOKEN";
 pub const YEAR: u128 = 60 * 60 * 24 * 365;
+pub const NANOS: u64 = 1_000_000_000;
 
 #[derive(Clone, Debug, Serialize, Deserialize)]
 pub struct Params {
@@ -35,8 +36,9 @@ pub enum SOp {
     Withdraw { d: usize, v: String },
     SetWithdraw { d: usize, to: String },
     Slash { v: String, p: String },
-    /// advance block time by `secs`; the twin instance advances in `pieces` (which sum to secs)
-    Advance { secs: u64, pieces: Vec<u64> },
+    /// advance block time by `nanos`; the twin instance advances in `pieces` (nanoseconds, summing to `nanos`)
+    /// and lets an unrelated delegator trigger reward updates in between
+    Advance { nanos: u64, pieces: Vec<u64> },
 }
 
 #[derive(Clone, Debug, Serialize, Deserialize)]
@@ -67,6 +69,8 @@ pub struct Inst {
     pub app: App,
     pub delegators: Vec<String>, // [user, user, relay contract]
     pub operator: String,        // the user who drives the relay contract
+    pub noise: String,           // unrelated delegator used only by the split-time twin
+    pub validators: Vec<String>,
 }
 
 pub fn validators(p: &Params) -> Vec<String> {
@@ -100,7 +104,9 @@ impl Inst {
         for d in &delegators {
             app.sudo(SudoMsg::Bank(BankSudo::Mint { to_address: d.clone(), amount: vec![coin(START_BALANCE, DENOM), coin(1000, "ux")] })).unwrap();
         }
-        Inst { app, delegators, operator }
+        let noise = "noise-delegator".into_addr().to_string();
+        app.sudo(SudoMsg::Bank(BankSudo::Mint { to_address: noise.clone(), amount: vec![coin(START_BALANCE, DENOM)] })).unwrap();
+        Inst { app, delegators, operator, noise, validators: validators(p) }
     }
 
     fn exec_as(&mut self, d: usize, msg: CosmosMsg) -> Result<(), String> {
@@ -132,19 +138,28 @@ impl Inst {
                 Ok(pd) => self.app.sudo(SudoMsg::Staking(StakingSudo::Slash { validator: v.clone(), percentage: pd })).map(|_| ()).map_err(|e| format!("{:#}", e)),
                 Err(e) => Err(format!("harness: bad decimal {}", e)),
             },
-            SOp::Advance { secs, pieces } => {
+            SOp::Advance { nanos, pieces } => {
                 if split {
-                    for p in pieces {
+                    let vals: Vec<String> = self.validators.clone();
+                    for (i, p) in pieces.iter().enumerate() {
                         let p = *p;
                         self.app.update_block(|b| {
-                            b.time = b.time.plus_seconds(p);
+                            b.time = b.time.plus_nanos(p);
                             b.height += 1;
                         });
+                        if i + 1 < pieces.len() {
+                            // an unrelated delegator stakes one token and takes it out again at once: this forces
+                            // reward updates at this instant and leaves no stake behind
+                            for v in &vals {
+                                let _ = self.app.execute(Addr::unchecked(self.noise.clone()), StakingMsg::Delegate { validator: v.clone(), amount: coin(1, DENOM) }.into());
+                                let _ = self.app.execute(Addr::unchecked(self.noise.clone()), StakingMsg::Undelegate { validator: v.clone(), amount: coin(1, DENOM) }.into());
+                            }
+                        }
                     }
                 } else {
-                    let s = *secs;
+                    let s = *nanos;
                     self.app.update_block(|b| {
-                        b.time = b.time.plus_seconds(s);
+                        b.time = b.time.plus_nanos(s);
                         b.height += 1;
                     });
                 }
@@ -289,7 +304,14 @@ pub struct Model {
     pub pairs: BTreeMap<(usize, String), Pair>,
     pub queue: VecDeque<Unb>,
     pub slashed: BTreeSet<String>,
+    /// block time in nanoseconds
     pub now: u64,
+    /// some advance of this history was not a whole number of seconds
+    pub subsecond: bool,
+    /// generator switch: this history may advance by fractions of a second
+    pub allow_subsecond: bool,
+    /// per pair: slack for the implementation measuring elapsed time in whole seconds of the timestamps
+    pub tol: BTreeMap<(usize, String), Q>,
     pub withdraw_addr: BTreeMap<usize, String>,
     pub vals: Vec<String>,
     pub commission: BTreeMap<String, Q>,
@@ -305,6 +327,7 @@ impl Model {
         for d in &inst.delegators {
             ledger.mint(d, &vec![(DENOM.to_string(), START_BALANCE), ("ux".to_string(), 1000)]);
         }
+        ledger.mint(&inst.noise, &vec![(DENOM.to_string(), START_BALANCE)]);
         let vals = validators(p);
         let mut commission = BTreeMap::new();
         for (i, c) in p.commissions.iter().enumerate() {
@@ -315,7 +338,10 @@ impl Model {
             pairs: BTreeMap::new(),
             queue: VecDeque::new(),
             slashed: BTreeSet::new(),
-            now: 1_000_000,
+            now: 1_000_000 * NANOS,
+            subsecond: false,
+            allow_subsecond: false,
+            tol: BTreeMap::new(),
             withdraw_addr: BTreeMap::new(),
             vals,
             commission,
@@ -372,10 +398,11 @@ impl Run {
     fn raw_pending(&self, rs: &RawStaking, d: usize, v: &str, now: u64) -> Option<Q> {
         let (stake, rewards) = rs.stakes.get(&(self.model.delegators[d].clone(), v.to_string()))?;
         let (_, total, last) = rs.vinfo.get(v)?;
-        if *total == 0 || now <= *last {
+        let now_s = now / NANOS;
+        if *total == 0 || now_s <= *last {
             return Some(rewards.clone());
         }
-        Some(rewards.clone() + stake.clone() * self.model.rate(v) * Q::int((now - last) as u128))
+        Some(rewards.clone() + stake.clone() * self.model.rate(v) * Q::int((now_s - last) as u128))
     }
 
     /// Applies one op to the instance(s) and the model; compares. Returns failures (possibly for several properties).
@@ -431,7 +458,7 @@ impl Run {
                     let p = m.pair(*d, v);
                     p.lo -= *amount;
                     p.hi = p.hi.clone() - Q::int(*amount);
-                    m.queue.push_back(Unb { d: *d, v: v.clone(), amount: *amount, payout_at: now + unb, slashed_while_pending: false });
+                    m.queue.push_back(Unb { d: *d, v: v.clone(), amount: *amount, payout_at: now + unb * NANOS, slashed_while_pending: false });
                 }
                 ("undelegate", e)
             }
@@ -475,16 +502,27 @@ impl Run {
                 let ok = known(v) && pq <= Q::int(1);
                 ("slash", if ok { Expect::MustOk } else { Expect::MustErr })
             }
-            SOp::Advance { secs, .. } => {
-                let t = m.now + secs;
+            SOp::Advance { nanos, .. } => {
+                let t = m.now + nanos;
+                if nanos % NANOS != 0 {
+                    m.subsecond = true;
+                }
+                let elapsed = Q::ratio(*nanos as u128, NANOS as u128);
                 // accrue rewards over the interval (stakes are constant during it)
                 let keys: Vec<(usize, String)> = m.pairs.keys().cloned().collect();
+                let subsecond = m.subsecond;
                 for k in keys {
                     let rate = m.rate(&k.1);
                     let p = m.pairs.get_mut(&k).unwrap();
                     if p.active {
-                        p.x_lo = p.x_lo.clone() + Q::int(p.lo) * rate.clone() * Q::int(*secs as u128);
-                        p.x_hi = p.x_hi.clone() + p.hi.clone() * rate * Q::int(*secs as u128);
+                        p.x_lo = p.x_lo.clone() + Q::int(p.lo) * rate.clone() * elapsed.clone();
+                        p.x_hi = p.x_hi.clone() + p.hi.clone() * rate.clone() * elapsed.clone();
+                        if subsecond {
+                            // elapsed time is measured in whole seconds of the timestamps: up to one second of
+                            // reward per interval either way (far below one token for the bounded stakes)
+                            let t = m.tol.entry(k.clone()).or_insert_with(Q::zero);
+                            *t = t.clone() + p.hi.clone() * rate * Q::int(1);
+                        }
                     }
                 }
                 m.now = t;
@@ -745,6 +783,7 @@ impl Run {
                     p.x_hi = Q::zero();
                     p.withdrawn = 0;
                     p.withdrawals = 0;
+                    m.tol.remove(&key);
                     rep.bump("stk/reward_periods_started");
                 } else if shown == 0 && was_active {
                     m.pair(d, v).active = false;
@@ -753,8 +792,9 @@ impl Run {
                 if let Some(p) = m.pairs.get(&key) {
                     if p.active {
                         let total = Q::int(p.withdrawn + pending_after(d, v));
-                        let upper = p.r0.clone() + p.x_hi.clone() + eps();
-                        let lower = p.r0.clone() + p.x_lo.clone() - Q::int(p.withdrawals as u128 + 1) - eps();
+                        let slack = m.tol.get(&key).cloned().unwrap_or_else(Q::zero);
+                        let upper = p.r0.clone() + p.x_hi.clone() + eps() + slack.clone();
+                        let lower = p.r0.clone() + p.x_lo.clone() - Q::int(p.withdrawals as u128 + 1) - eps() - slack;
                         rep.bump("stk/reward_bounds_checked");
                         if p.withdrawals > 0 {
                             rep.bump("stk/reward_bounds_checked_after_withdrawals");
@@ -845,7 +885,12 @@ impl Run {
                     }
                 }
                 // bank balances must agree (a withdrawal's floor can flip only on an integer boundary)
-                if let (Ok(la), Ok(lb)) = (rawstate::bank_ledger(&raw_after), rawstate::bank_ledger(&traw)) {
+                if let (Ok(mut la), Ok(mut lb)) = (rawstate::bank_ledger(&raw_after), rawstate::bank_ledger(&traw)) {
+                    // the twin's unrelated delegator moves its own tokens into the pool
+                    for l in [&mut la, &mut lb] {
+                        l.remove(&self.inst.noise);
+                        l.remove(POOL);
+                    }
                     if la != lb && self.twin_near_int == 0 {
                         let mut near = false;
                         if let SOp::Withdraw { d, v } = op {
@@ -991,15 +1036,25 @@ pub fn gen_op(rng: &mut Rng, m: &Model, mix: Mix) -> SOp {
                 11 => 400 * 86400,
                 _ => rng.range(1, 100_000),
             };
-            let k = rng.range(1, 5).min(secs.max(1));
+            let mut nanos = secs * NANOS;
+            if m.allow_subsecond && rng.chance(1, 2) {
+                nanos += rng.range(1, NANOS - 1);
+            }
+            let k = rng.range(1, 5).min(nanos.max(1));
             let mut pieces = vec![];
-            let mut left = secs;
+            let mut left = nanos;
             for i in 0..k {
-                let p = if i + 1 == k { left } else { rng.range(0, left) };
+                let p = if i + 1 == k {
+                    left
+                } else if m.allow_subsecond {
+                    rng.range(0, left)
+                } else {
+                    rng.range(0, left / NANOS) * NANOS
+                };
                 pieces.push(p);
                 left -= p;
             }
-            SOp::Advance { secs, pieces }
+            SOp::Advance { nanos, pieces }
         }
     }
 }
@@ -1008,6 +1063,10 @@ pub fn gen_op(rng: &mut Rng, m: &Model, mix: Mix) -> SOp {
 pub fn run_random(rng: &mut Rng, len: usize, mix: Mix, with_twin: bool, rep: &mut Report) -> (Case, Vec<Fail>) {
     let params = gen_params(rng);
     let mut run = Run::new(&params, with_twin);
+    run.model.allow_subsecond = rng.chance(1, 3);
+    if run.model.allow_subsecond {
+        rep.bump("stk/histories_with_subsecond_block_times");
+    }
     let mut ops = vec![];
     for _ in 0..len {
         let op = gen_op(rng, &run.model, mix);
@@ -1059,7 +1118,7 @@ pub fn templates() -> Vec<(String, Case)> {
     let v0 = "validator0".to_string();
     let v1 = "validator1".to_string();
     let t = DENOM.to_string();
-    let adv = |s: u64| SOp::Advance { secs: s, pieces: vec![s / 2, s - s / 2] };
+    let adv = |s: u64| SOp::Advance { nanos: s * NANOS, pieces: vec![(s / 2) * NANOS, (s - s / 2) * NANOS] };
     vec![
         (
             "dust-cleanup-then-reward-update".into(),
